@@ -6,6 +6,7 @@ From Low Require Import Lib.MachInt Lib.Bits Lib.BitSeq Model.Rank Spec.RankSpec
 From Low Require Import Model.Rank32 Model.RankOps Model.BitmapOf Spec.RankLawsSpec Spec.OfQuerySpec
   Proofs.Rank32Proofs Proofs.RankLaws Proofs.RankIndexLaws Proofs.RankConcat Proofs.RankHistory Proofs.RankCompose Proofs.RankComplement Proofs.RankConcat128 Proofs.RankContract.
 From Low Require Import Model.BitmapMask12 Model.RankTab Proofs.RankTabProofs.
+From Low Require Import Spec.RankSessionSpec Model.RankSession Proofs.RankSession.
 Import ListNotations.
 Open Scope Z_scope.
 
@@ -316,5 +317,40 @@ Example C01_laws_nonvacuous :
   query F128 (map not64 ws) 130 = Some (63, 0) /\
   Rank64 ws [0; 0; 66; 7; 7] 130 = Some (67, 1) /\ Rank64_tab ws [0; 0; 66] 130 = Some (67, 1) /\ Rank128 ws [7; 66] 130 = Some (67, 1) /\
   ToArray ws = Some ([0; 2] ++ map Z.of_nat (seq 64 64) ++ [129; 130]) /\ Get1 ws 130 = Some 1.
+Proof. vm_compute. intuition congruence. Qed.
+
+(** * Round c: sessions and concurrent builds (ops bitmap.IndexRank/session, bitmap.IndexRank64/concurrent) *)
+
+(** the per-run formulation of the indexes of a run-length encoded bitmap = the running sums on the expanded bitmap *)
+Theorem C01_rle_indexes : forall runs,
+  (spec_index_rle (F64 false) runs, spec_index_rle (F64 true) runs, spec_index_rle F128 runs)
+  = spec_indexes (expand_rle runs).
+Proof. exact spec_index_rle_indexes. Qed.
+Print Assumptions C01_rle_indexes.
+
+(** a session of any length, run any number of times: every step returns the index and the answer of its own bitmap,
+    whatever was built before and whatever the caller wrote into the indexes it was given *)
+Theorem C01_session : forall steps reps,
+  Forall (fun s => words_ok (expand_rle (snd s))) steps ->
+  session steps reps =
+  map (fun s => (spec_index_rle (fst s) (snd s),
+                 RankLawsSpec.spec_query (expand_rle (snd s)) (64 * zlen (expand_rle (snd s)) - 1)))
+      (repeat_list steps reps).
+Proof. exact session_exact. Qed.
+Print Assumptions C01_session.
+
+(** concurrent builds: what the single caller gets, and every concurrent call equal to it *)
+Theorem C01_concurrent : forall bms tr stride ncalls,
+  Forall (fun runs => words_ok (expand_rle runs)) bms ->
+  concurrent bms tr stride ncalls =
+  (map (fun runs => sample_every stride (spec_index_rle (F64 tr) runs)) bms, repeat 1 ncalls).
+Proof. exact concurrent_exact. Qed.
+Print Assumptions C01_concurrent.
+
+Example C01_session_nonvacuous :
+  session [(F128, [(3, 2^64 - 1); (1, 5)]); (F128, []); (F64 true, [(1, 6)])] 2 =
+    [([0; 128; 194], Some (194, 0)); ([0], None); ([0; 2], Some (2, 0));
+     ([0; 128; 194], Some (194, 0)); ([0], None); ([0; 2], Some (2, 0))] /\
+  concurrent [[(5, 3)]; [(2, 1); (1, 0)]] true 2 3 = ([[0; 4; 8; 10]; [0; 2; 2]], [1; 1; 1]).
 Proof. vm_compute. intuition congruence. Qed.
 
